@@ -109,7 +109,7 @@ impl TryFrom<JwkExt> for Jwk {
 
     let (kty, params) = match value.key_params {
       JwkAlgorithmParameters::EllipticCurve(p) => (JwkType::Ec, JwkParams::Ec(JwkParamsEc::from(p))),
-      _ => unreachable!(),
+      _ => return Err(Self::Error::InvalidParam("Parameters not supported!")),
     };
 
     Ok(Self {
